@@ -2,6 +2,8 @@ package main
 
 import (
 	"fmt"
+	"go/token"
+	"go/types"
 	"sort"
 	"strings"
 
@@ -153,6 +155,49 @@ func checkC10(c *Ctx) {
 		}
 	}
 	r.OK("C10.G4", "census", "", fmt.Sprintf("%d package-level variables examined over %d functions in reach of the entry points: %d hold cross-call state", len(globals), len(funcs), shared))
+
+	// G5: a package-level channel (a semaphore, a queue, a pool of slots) couples the calls: a slot taken by one call and not
+	// given back on every exit is missing for all later ones
+	r.Rule("C10.G5", "no package-level channel is used in reach of the entry points", 1)
+	chanUses := 0
+	fromGlobalChan := func(v ssa.Value) *ssa.Global {
+		if u, ok := v.(*ssa.UnOp); ok && u.Op == token.MUL {
+			if g, ok := u.X.(*ssa.Global); ok {
+				if _, isChan := elemOfPointer(g).Underlying().(*types.Chan); isChan {
+					return g
+				}
+			}
+		}
+		return nil
+	}
+	for _, f := range funcs {
+		for _, b := range f.Blocks {
+			for _, ins := range b.Instrs {
+				var g *ssa.Global
+				switch x := ins.(type) {
+				case *ssa.Send:
+					g = fromGlobalChan(x.Chan)
+				case *ssa.UnOp:
+					if x.Op == token.ARROW {
+						g = fromGlobalChan(x.X)
+					}
+				case *ssa.Select:
+					for _, st := range x.States {
+						if gg := fromGlobalChan(st.Chan); gg != nil {
+							g = gg
+						}
+					}
+				}
+				if g != nil {
+					chanUses++
+					r.Bad("C10.G5", FuncKey(f)+"#"+globalKey(g), p.Pos(ins.Pos()), "a package-level channel is sent to or received from in reach of the entry points: calls wait for each other, and a slot that is not returned on an error or panic path blocks every later call")
+				}
+			}
+		}
+	}
+	if chanUses == 0 {
+		r.OK("C10.G5", "census", "", fmt.Sprintf("%d functions scanned: no send, receive or select on a package-level channel", len(funcs)))
+	}
 
 	// G3
 	gos, pools, unsafes := 0, 0, 0
